@@ -1,6 +1,7 @@
 (* C17 - raising the read limit never loses a binary identification. *)
 From Verif Require Import Base.Bytes Model.Types Model.GoLite Model.Zip Model.Detect Gen.TreeData
-  Proofs.GoLiteP Proofs.MonoP Proofs.DetectP Gen.SigData Model.Detectors Gen.FuncTerms Proofs.TranslateP.
+  Proofs.GoLiteP Proofs.MonoP Proofs.DetectP Gen.SigData Model.Detectors Gen.FuncTerms Proofs.TranslateP
+  Model.Tar Model.Mkv Model.GoRes Gen.SrcFuncs Proofs.SrcZipP Proofs.SrcMkvP Proofs.SrcTarP.
 
 (* the analysis behind the data obligation: a term classified monotone keeps a positive verdict
    under every extension of the header *)
@@ -41,3 +42,11 @@ Proof. vm_compute. reflexivity. Qed.
 Theorem C17_analysed_terms_are_the_source : translation_agrees && comb_translation_agrees = true.
 Proof. vm_compute. reflexivity. Qed.
 Print Assumptions C17_analysed_terms_are_the_source.
+
+(* the three root formats whose monotonicity is proved on hand-written models (tar / crx / matroska_monotone): the
+   models are the current source (translated on this run, Gen/SrcFuncs.v) *)
+Theorem C17_hand_models_are_the_source : forall raw l, bytes_ok raw = true ->
+  src_Tar raw l = Val (tar_det raw) /\ src_CRX raw l = Val (crx_det raw) /\
+  src_Mkv raw l = Val (mkv_det raw) /\ src_WebM raw l = Val (webm_det raw).
+Proof. intros raw l H. repeat split. - apply src_Tar_ok; exact H. - apply src_CRX_ok. - apply src_Mkv_ok; exact H. - apply src_WebM_ok; exact H. Qed.
+Print Assumptions C17_hand_models_are_the_source.
